@@ -118,6 +118,19 @@ def check_pooled(case):
     for lab in before:
         if len(pooled[lab]) != len(before[lab]) or any(len(x) != len(y) or any(p is not q for p, q in zip(x, y)) for x, y in zip(pooled[lab], before[lab])):
             return "evaluating the scene changed the pooled per-frame results it was given"
+    # the same results handed over as one list (frame order kept, so ties rank alike) must score the same: pooling neither drops nor repeats a frame
+    flat = {lab: [r for frame in v for r in frame] for lab, v in before.items()}
+    ms_flat = MetricsScore(config=msc, used_frame=list(range(len(case["frames"]))))
+    ms_flat.evaluate_detection(flat, num_gt)
+    # ... also without the empty head list the manager starts its per-label pools with
+    trimmed = {lab: [list(x) for x in v[1:]] for lab, v in before.items()}
+    ms_trim = MetricsScore(config=msc, used_frame=list(range(len(case["frames"]))))
+    ms_trim.evaluate_detection(trimmed, num_gt)
+    for m, mf in list(zip(ms.maps, ms_flat.maps)) + list(zip(ms_trim.maps, ms_flat.maps)):
+        for a, af in zip(list(m.aps) + list(m.aphs), list(mf.aps) + list(mf.aphs)):
+            if a.objects_results_num != af.objects_results_num or (a.ap != af.ap and abs(a.ap - af.ap) > 1e-12):
+                return (f"scene score over per-frame lists: {a.objects_results_num} results, AP {a.ap}; the same results as one list: {af.objects_results_num} results, AP {af.ap} "
+                        f"({m.matching_mode}, {[str(t) for t in a.target_labels]})")
     for m in ms.maps:
         for a, h in zip(m.aps, m.aphs):
             if a.ap != float("inf") and not (-1e-12 <= a.ap <= 1 + 1e-9):
@@ -139,7 +152,7 @@ def gen_scene(rnd):
             e = rnd.choice(est)
             g.update(label=e["label"], x=e["x"] + rnd.choice([0.2, 0.8, 1.6]) + 0.011 * i, y=e["y"] + 0.01 * i)
         gt.append(g)
-    thr = [rnd.choice([0.5, 1.0, 2.0])] * 3
+    thr = [rnd.choice([0.5, 1.0, 2.0, 1, 2])] * 3        # floats and whole numbers, as configuration files spell them
     policy = rnd.choice(["DEFAULT", "DEFAULT", "ALLOW_UNKNOWN", "ALLOW_UNKNOWN", "ALLOW_ANY"])
     if policy != "DEFAULT":
         for e in est:
